@@ -1671,3 +1671,103 @@ Lemma parser_reloc_raw_ranges_lemma : forall (be dbg : bool) (fuel : nat) (asz :
   out_plain (mkRd base (apply_rrels be R bs))
             (run_plain_rd be dbg (p_raw_ranges fuel asz []) (mkRd base (apply_rrels be R bs))).
 Proof. intros. now apply parser_reloc_b_lemma. Qed.
+
+(* ------------------------------------------------------------------ a static side condition for the pair lists *)
+
+Definition valid_asz (asz : N) : Prop := asz = 1 \/ asz = 2 \/ asz = 4 \/ asz = 8.
+
+Lemma read_address_valid asz be w : valid_asz asz -> read_address asz be w = read_un (N.to_nat asz) be w.
+Proof. intros [->|[->|[->| ->]]]; reflexivity. Qed.
+
+Lemma rr_rel_addr_shape be dbg (R : list rrel) sec base o l asz hook :
+  valid_asz asz -> (o + l <= length sec)%nat ->
+  rr_rel dbg asz (read_address asz be) hook (mkRrd (mkRd base sec) (mkst base sec o l)) =
+  if (N.to_nat asz <=? l)%nat then
+    ([EvRel (N.of_nat o) asz (dec_un be (slice sec o (N.to_nat asz)))],
+     let* v' := hook (N.of_nat o) (dec_un be (slice sec o (N.to_nat asz))) in
+     Ok (v', mkRrd (mkRd base sec) (mkst base sec (o + N.to_nat asz) (l - N.to_nat asz))))
+  else ([], Err EUnexpectedEof).
+Proof.
+  intros Hv Hb. unfold rr_rel. cbn [reader section]. rewrite (offset_from_mkst dbg R sec base o l Hb).
+  destruct (Nat.leb_spec (N.to_nat asz) l) as [Hk|Hk].
+  - rewrite (rd_lift_mkst R base (read_address asz be) sec o l (dec_un be (slice sec o (N.to_nat asz))) (N.to_nat asz) Hb Hk).
+    + reflexivity.
+    + rewrite read_address_valid by auto. now apply (read_un_slice be R).
+  - unfold rd_lift, mkst. cbn [win]. rewrite read_address_valid by auto.
+    rewrite (read_un_slice_eof be R) by auto. reflexivity.
+Qed.
+
+Definition aligned_ev (asz : N) (e : ev) : Prop :=
+  match e with EvRel pos w _ => w = asz /\ pos mod asz = 0 | EvPlain _ _ => False end.
+
+Lemma raw_ranges_trace be dbg (R : list rrel) sec base asz :
+  valid_asz asz -> forall fuel acc o l,
+  (o + l <= length sec)%nat -> N.of_nat o mod asz = 0 ->
+  Forall (aligned_ev asz)
+    (fst (run_reloc_rd be dbg (map_relocator R) (p_raw_ranges fuel asz acc)
+            (mkRrd (mkRd base sec) (mkst base sec o l)))).
+Proof.
+  intros Hv. assert (Hz : asz <> 0) by (destruct Hv as [->|[->|[->| ->]]]; discriminate).
+  induction fuel as [|fuel IH]; intros acc o l Hb Ho; cbn [p_raw_ranges run_reloc_rd].
+  - cbn. constructor.
+  - cbn [reader]. rewrite (rd_len_mkst base sec o l Hb).
+    destruct (N.of_nat l =? 0); [cbn; constructor|].
+    cbn [run_reloc_rd]. rewrite (rr_rel_addr_shape be dbg R sec base o l asz _ Hv Hb).
+    destruct (Nat.leb_spec (N.to_nat asz) l) as [Hk|Hk]; [|cbn; constructor].
+    unfold tbind at 1. cbn [map_relocator rl_addr bind fst snd].
+    apply Forall_app. split.
+    { constructor; [|constructor]. cbn. auto. }
+    cbn [run_reloc_rd].
+    assert (Hb2 : (o + N.to_nat asz + (l - N.to_nat asz) <= length sec)%nat) by lia.
+    rewrite (rr_rel_addr_shape be dbg R sec base _ _ asz _ Hv Hb2).
+    destruct (Nat.leb_spec (N.to_nat asz) (l - N.to_nat asz)) as [Hk2|Hk2]; [|cbn; constructor].
+    unfold tbind at 1. cbn [map_relocator rl_addr bind fst snd].
+    assert (Ho2 : N.of_nat (o + N.to_nat asz) mod asz = 0).
+    { rewrite Nat2N.inj_add, N2Nat.id. rewrite <- N.add_mod_idemp_l, Ho by auto.
+      cbn [N.add]. now apply N.mod_same. }
+    assert (Ho3 : N.of_nat (o + N.to_nat asz + N.to_nat asz) mod asz = 0).
+    { rewrite Nat2N.inj_add, N2Nat.id. rewrite <- N.add_mod_idemp_l, Ho2 by auto.
+      cbn [N.add]. now apply N.mod_same. }
+    apply Forall_app. split.
+    { constructor; [|constructor]. cbn. auto. }
+    set (b := relocate R (N.of_nat o) _). set (e := relocate R (N.of_nat (o + N.to_nat asz)) _).
+    destruct ((b =? 0) && (e =? 0)); [cbn; constructor|].
+    destruct (b =? mask_of asz); apply IH; auto; lia.
+Qed.
+
+Lemma aligned_trace_ok (R : list rrel) asz t :
+  valid_asz asz ->
+  (forall r, In r R -> rr_w r = asz /\ rr_pos r mod asz = 0 /\ rr_impl r = false /\ rr_add r < 2 ^ (8 * asz)) ->
+  Forall (aligned_ev asz) t -> trace_ok R t.
+Proof.
+  intros Hv HR Ht. assert (Hz : asz <> 0) by (destruct Hv as [->|[->|[->| ->]]]; discriminate).
+  unfold trace_ok. eapply Forall_impl; [|exact Ht].
+  intros [pos n|pos w v]; cbn [aligned_ev ev_ok]; [contradiction|].
+  intros [-> Hp]. split.
+  - intros r Hr Hpos. destruct (HR r Hr) as (Hw & _ & Hi & Ha). split; auto.
+    unfold rrel_value. now rewrite Hi.
+  - intros r Hr Hpos. destruct (HR r Hr) as (Hw & Hm & _ & _).
+    unfold site_disjoint. rewrite Hw.
+    (* both positions are multiples of asz and differ: they are at least asz apart *)
+    pose proof (N.div_mod (rr_pos r) asz Hz) as E1. pose proof (N.div_mod pos asz Hz) as E2.
+    rewrite Hm in E1. rewrite Hp in E2.
+    set (q1 := rr_pos r / asz) in *. set (q2 := pos / asz) in *.
+    assert (q1 <> q2) by (intros E; apply Hpos; rewrite E1, E2, E; reflexivity).
+    destruct (N.lt_ge_cases q1 q2); [left|right]; nia.
+Qed.
+
+Lemma parser_reloc_raw_ranges_static_lemma :
+  forall (be dbg : bool) (fuel : nat) (asz : N) (R : list rrel) (bs : list byte) (base : N),
+  valid_asz asz -> sites_disjointb R = true ->
+  (forall r, In r R -> rr_w r = asz /\ rr_pos r mod asz = 0 /\ rr_impl r = false /\ rr_add r < 2 ^ (8 * asz)) ->
+  out_reloc (snd (run_reloc_rd be dbg (map_relocator R) (p_raw_ranges fuel asz []) (rrd_new (mkRd base bs)))) =
+  out_plain (mkRd base (apply_rrels be R bs))
+            (run_plain_rd be dbg (p_raw_ranges fuel asz []) (mkRd base (apply_rrels be R bs))).
+Proof.
+  intros be dbg fuel asz R bs base Hv Hd HR.
+  apply parser_reloc_lemma; auto.
+  eapply aligned_trace_ok; eauto.
+  replace (rrd_new (mkRd base bs)) with (mkRrd (mkRd base bs) (mkst base bs 0 (length bs)))
+    by (unfold rrd_new; now rewrite mkst_whole).
+  apply raw_ranges_trace; auto.
+Qed.
